@@ -373,7 +373,25 @@ struct Runner {
 	bool slice_ok(int j, long lo, long hi) { auto e = at(j).extension(); return static_cast<long>(e.first()) <= lo && lo <= hi && hi <= static_cast<long>(e.last()); }
 
 	// executes one operation line on the real arrays; returns the tag (operation + branch) — may throw
+	// D = 0 (array<T, 0>: exactly one element, no empty state).  Only the forms whose meaning coincides with the D >= 1 code the
+	// model transcribes are part of a history: element/extension constructors, copy construction, copy assignment (always
+	// in place), assignment of an element, destruction.  (Move construction and move assignment of a 0-D array copy/move the
+	// element and leave the source alive - static_array semantics - and are not modelled.)
+	std::string exec_op0(std::vector<std::string> const& w, std::string& extra) {
+		std::string const& op = w[1];
+		auto I = [&](std::size_t k) { return std::stoi(w[k]); };
+		auto need = [&](int i, bool live) { return alive[i] == live; };
+		if(op == "ctor_ext") { int i = I(2); if(!need(i, false)) return "skip"; lg::begin(op); construct(i, [&](void* p) { new(p) Arr(multi::extensions_t<0>{}, AP::template make<T>(I(3))); }); if constexpr(std::is_same_v<T, int>) extra = " pat " + std::to_string(pattern_cells(i)); return op; }
+		if(op == "ctor_fill") { int i = I(2); if(!need(i, false)) return "skip"; lg::begin(op); T v = mkval<T>(7); construct(i, [&](void* p) { new(p) Arr(v, AP::template make<T>(I(3))); }); return op; }
+		if(op == "ctor_copy") { int i = I(2), j = I(3); if(!need(i, false) || !need(j, true)) return "skip"; lg::begin(op); construct(i, [&](void* p) { new(p) Arr(at(j)); }); return op; }
+		if(op == "dtor") { int i = I(2); if(!need(i, true)) return "skip"; lg::begin(op); alive[i] = false; at(i).~Arr(); return op; }
+		if(op == "assign_copy") { int i = I(2), j = I(3); if(!need(i, true) || !need(j, true)) return "skip"; std::string tag = op + (i == j ? "/self" : "/same"); lg::begin(tag); Arr const& src = at(j); at(i) = src; return tag; }
+		if(op == "assign_fill") { int i = I(2); if(!need(i, true)) return "skip"; std::string tag = op + "/same"; lg::begin(tag); T v = mkval<T>(5); at(i) = v; return tag; }
+		return "bad-op";
+	}
+
 	std::string exec_op(std::vector<std::string> const& w, std::string& extra) {
+		if constexpr(D == 0) { return exec_op0(w, extra); } else {
 		std::string const& op = w[1];
 		auto I = [&](std::size_t k) { return std::stoi(w[k]); };
 		auto EX = [&](std::size_t k) { std::vector<Ex> ex; for(int d = 0; d < D; ++d) ex.push_back(Ex{std::stol(w[k + 2 * static_cast<std::size_t>(d)]), std::stol(w[k + 2 * static_cast<std::size_t>(d) + 1])}); return ex; };
@@ -432,6 +450,7 @@ struct Runner {
 			return op;
 		}
 		return "bad-op";
+		}
 	}
 
 	// runs a whole program (lines after `cfg`), printing the answers
@@ -505,6 +524,14 @@ template<class T, int D> static RunFn pick_traits(int traits) {
 // which (element, D, allocator) combinations are instantiated: Elem: D = 2 with all 16 trait configurations, D = 1, 3 with
 // configurations 0 and 15, pmr at D = 1, 2;   int: D = 1..3 with configuration 0 (ledger + "no write" pattern only)
 static RunFn pick(Cfg const& c) {
+	if(c.D == 0) {   // array<T, 0>: non-propagating, not-always-equal allocators (all three select_on_container_copy_construction modes) and std::pmr
+		if(c.pmr) return c.elem == 'E' ? &run_as<Elem, 0, PolicyPmr> : nullptr;
+		if(c.traits != 0) return nullptr;
+		if(c.elem == 'E') return &run_as<Elem, 0, PolicyL<0>>;
+		if(c.elem == 'I') return &run_as<int, 0, PolicyL<0>>;
+		if(c.elem == 'S') return &run_as<Semi, 0, PolicyL<0>>;
+		return nullptr;
+	}
 	if(c.elem == 'E') {
 		if(c.pmr) { if(c.D == 1) return &run_as<Elem, 1, PolicyPmr>; if(c.D == 2) return &run_as<Elem, 2, PolicyPmr>; return nullptr; }
 		if(c.D == 2) return pick_traits<Elem, 2>(c.traits);
@@ -590,7 +617,38 @@ static std::vector<Ex> collapse(std::vector<Ex> ex) {
 	return ex;
 }
 
+// histories over array<T, 0> (see exec_op0)
+static std::vector<std::string> gen_history0(Rng& rng, int maxops, std::string const& mode) {
+	std::vector<std::string> L;
+	bool alive[P] = {false, false, false, false};
+	auto pick_alloc = [&]() { return (mode == "alloc" || rng.coin(55)) ? static_cast<int>(rng.range(0, 3)) : 1; };
+	auto some = [&](bool want) { std::vector<int> v; for(int i = 0; i < P; ++i) if(alive[i] == want) v.push_back(i); return v; };
+	auto any = [&](std::vector<int> const& v) { return v[static_cast<std::size_t>(rng.range(0, static_cast<long>(v.size()) - 1))]; };
+	int nops = static_cast<int>(rng.range(1, maxops));
+	for(int k = 0; k < nops; ++k) {
+		auto lv = some(true), dd = some(false);
+		if(!dd.empty() && (lv.empty() || rng.coin(lv.size() < 2 ? 70 : 35))) {
+			int i = any(dd); int form = lv.empty() ? rng.pick({50, 50, 0}) : rng.pick({25, 25, 50});
+			if(form == 0) L.push_back("x ctor_ext " + std::to_string(i) + " " + std::to_string(pick_alloc()));
+			else if(form == 1) L.push_back("x ctor_fill " + std::to_string(i) + " " + std::to_string(pick_alloc()));
+			else L.push_back("x ctor_copy " + std::to_string(i) + " " + std::to_string(any(lv)));
+			alive[i] = true; continue;
+		}
+		if(lv.empty()) continue;
+		int i = any(lv), j = any(lv);
+		switch(rng.pick({25, 45, 30})) {
+			case 0: L.push_back("x dtor " + std::to_string(i)); alive[i] = false; break;
+			case 1: L.push_back("x assign_copy " + std::to_string(i) + " " + std::to_string(j)); break;
+			default: L.push_back("x assign_fill " + std::to_string(i)); break;
+		}
+	}
+	for(int i = 0; i < P; ++i) L.push_back("x dtor " + std::to_string(i));
+	L.push_back("end");
+	return L;
+}
+
 static std::vector<std::string> gen_history(Rng& rng, Cfg const& c, int maxops, std::string const& mode) {
+	if(c.D == 0) return gen_history0(rng, maxops, mode);
 	std::vector<std::string> L;
 	Shadow sh[P];
 	int nalloc = 4;
@@ -688,6 +746,14 @@ static long count_fallible(std::vector<std::string> const& answers) {
 
 static Cfg gen_cfg(Rng& rng, std::string const& mode) {
 	Cfg c;
+	if(rng.coin(7)) {   // array<T, 0>
+		c.D = 0; c.traits = 0;
+		if(mode == "trivial") { c.elem = 'I'; return c; }
+		if(mode == "semitriv") { c.elem = 'S'; return c; }
+		c.elem = 'E';
+		if(rng.coin(25)) { c.pmr = 1; c.socc = 2; } else c.socc = static_cast<int>(rng.range(0, 2));
+		return c;
+	}
 	if(mode == "trivial") { c.elem = 'I'; c.D = static_cast<int>(rng.range(1, 3)); return c; }
 	if(mode == "semitriv") { if(rng.coin(25)) { c.elem = 'F'; c.D = 2; } else { c.elem = 'S'; c.D = static_cast<int>(rng.range(1, 3)); } return c; }
 	if(mode == "hist" && rng.coin(12)) { c.elem = 'I'; c.D = static_cast<int>(rng.range(1, 3)); return c; }
